@@ -11,6 +11,7 @@ pub fn instances(tier: &str) -> Vec<String> {
         v.push(format!("basic:n={}", n));
         v.push(format!("lu:n={}", n));
     }
+    for n in 1..=2 { v.push(format!("cbasic:n={}", n)); v.push(format!("clu:n={}", n)); }
     v.push("agree:n=1".into());
     v.push("agree:n=2".into());
     if tier == "thorough" {
@@ -47,6 +48,7 @@ fn check_solution(tag: &str, a: &[Vec<Sym>], b: &[Sym], r: Result<Vector<Sym>, S
 pub fn body(inst: &str) {
     let (kind, p) = parse_inst(inst);
     let n = geti(&p, "n");
+    if kind == "cbasic" || kind == "clu" { return cplx::body(&kind, n); }
     let a = var_grid("a", n, n);
     let b = var_vec("b", n);
     assume(ne(det(&a), Sym::lit(0.0)));
@@ -82,4 +84,56 @@ pub fn body(inst: &str) {
         _ => panic!("unknown C01 instance {}", inst),
     }
     let _ = Matrix::<Sym>::empty();
+}
+
+// ---- Complex<f64> elements (derived crate: Signed for Complex is f64-only) ----
+pub mod cplx {
+    use crate::util::*;
+    use ohsl_sym::{Cmplx, Matrix, Vector};
+    use symcore::*;
+
+    fn z() -> Sym { Sym::lit(0.0) }
+    pub fn cgrid(p: &str, n: usize) -> Vec<Vec<Cmplx>> { (0..n).map(|i| (0..n).map(|j| Cmplx::new(Sym::var(&format!("{}r_{}_{}", p, i, j)), Sym::var(&format!("{}i_{}_{}", p, i, j)))).collect()).collect() }
+    pub fn cvec(p: &str, n: usize) -> Vec<Cmplx> { (0..n).map(|i| Cmplx::new(Sym::var(&format!("{}r_{}", p, i)), Sym::var(&format!("{}i_{}", p, i)))).collect() }
+    pub fn cdet(a: &[Vec<Cmplx>]) -> Cmplx {
+        let n = a.len();
+        if n == 1 { return a[0][0]; }
+        let mut acc = Cmplx::new(z(), z());
+        for j in 0..n {
+            let minor: Vec<Vec<Cmplx>> = (1..n).map(|i| (0..n).filter(|&k| k != j).map(|k| a[i][k]).collect()).collect();
+            let t = a[0][j] * cdet(&minor);
+            if j % 2 == 0 { acc = acc + t; } else { acc = acc - t; }
+        }
+        acc
+    }
+    pub fn cmatrix(a: &[Vec<Cmplx>]) -> Matrix<Cmplx> {
+        let n = a.len();
+        let mut m = Matrix::<Cmplx>::new(n, n, Cmplx::new(z(), z()));
+        for i in 0..n { for j in 0..n { m[(i, j)] = a[i][j]; } }
+        m
+    }
+
+    pub fn body(kind: &str, n: usize) {
+        let a = cgrid("a", n);
+        let b = cvec("b", n);
+        let d = cdet(&a);
+        assume(B::or(vec![ne(d.real, z()), ne(d.imag, z())]));
+        let bv = Vector::create(b.clone());
+        let mut m = cmatrix(&a);
+        let r = catch(|| if kind == "cbasic" { m.solve_basic(&bv) } else { m.solve_lu(&bv) });
+        match r {
+            Ok(x) => {
+                prove(&format!("{}: result has length n", kind), if x.size() == n { B::True } else { B::False });
+                if x.size() == n {
+                    for i in 0..n {
+                        let mut acc = Cmplx::new(z(), z());
+                        for j in 0..n { acc = acc + a[i][j] * x[j]; }
+                        prove(&format!("{}: complex residual row {} (real part)", kind, i), eq(acc.real, b[i].real));
+                        prove(&format!("{}: complex residual row {} (imaginary part)", kind, i), eq(acc.imag, b[i].imag));
+                    }
+                }
+            }
+            Err(s) => must_not_stop(&format!("{}: nonsingular complex system must be solved", kind), &s),
+        }
+    }
 }
